@@ -167,3 +167,29 @@ def check_analysable(rule, fn):
         rule.undecided(fn['qname'], 'unanalysable', why, file=fn['file'], line=fn['line'])
         return False
     return True
+
+
+def split_args(s):
+    """Top-level comma split of 'a,f(b,c),d' -> ['a','f(b,c)','d']."""
+    out, depth, cur = [], 0, ''
+    for ch in s:
+        if ch in '([{<' and not (ch == '<'):
+            depth += 1
+        elif ch in ')]}':
+            depth -= 1
+        if ch == ',' and depth == 0:
+            out.append(cur)
+            cur = ''
+        else:
+            cur += ch
+    if cur or out:
+        out.append(cur)
+    return out
+
+
+def parse_call(atom):
+    """'f(a,g(b),c)' -> ('f', ['a','g(b)','c']) ; None if not of that shape."""
+    m = re.match(r'^([A-Za-z_][\w@]*)\((.*)\)$', atom)
+    if not m:
+        return None
+    return m.group(1), split_args(m.group(2))
